@@ -97,6 +97,64 @@ def rule_unbound(ctx: Ctx, rule: str, scopes: Iterable[Scope], what: str) -> Non
                                   f'the decorator is not transparent ({why}): what callers reach is the decorator\'s wrapper, not the analysed function - '
                                   'arguments or options can be changed or dropped, results re-packed, on paths the rules never see',
                                   construct=construct_key(f.qualname, 'opaque decorator', name))
+    # ... and each call starts from nothing: a mutable container built in a parameter default is built once, when the def runs,
+    # and a function that writes to it carries state from one call into the next (every property here speaks about a call,
+    # or about an object, never about "all calls so far")
+    import ast as _ast3
+    MUTATORS = {'append', 'appendleft', 'extend', 'extendleft', 'pop', 'popleft', 'popitem', 'add', 'update', 'clear', 'remove', 'discard',
+                'insert', 'setdefault', 'sort', 'reverse', 'rotate'}
+    BUILDERS = {'list', 'dict', 'set', 'deque', 'defaultdict', 'OrderedDict', 'Counter', 'bytearray'}
+    cand = []
+    for sc in scopes:
+        for f in descendants(sc):
+            cand.append(f)
+            # module-level helpers the anchored code names (one level): `_side(pairs, keep, parked=(deque(), deque()))`
+            for x in _ast3.walk(f.node):
+                if isinstance(x, _ast3.Name) and isinstance(x.ctx, _ast3.Load):
+                    h = next((c for c in f.unit.module_scope.children if c.kind == 'function' and c.name == x.id), None)
+                    if h is not None:
+                        cand.extend(descendants(h))
+    seen_d = set()
+    for f in cand:
+        if f.qualname in seen_d or not hasattr(f.node, 'args'):
+            continue
+        seen_d.add(f.qualname)
+        a = f.node.args
+        pos = a.posonlyargs + a.args
+        pairs = list(zip(pos[len(pos) - len(a.defaults):], a.defaults)) + [(k, d) for k, d in zip(a.kwonlyargs, a.kw_defaults) if d is not None]
+        for prm, d in pairs:
+            builds = any(isinstance(y, (_ast3.List, _ast3.Dict, _ast3.Set, _ast3.ListComp, _ast3.DictComp, _ast3.SetComp)) or (
+                isinstance(y, _ast3.Call) and (_dotted_name(y.func) or '').split('.')[-1] in BUILDERS) for y in _ast3.walk(d))
+            if not builds:
+                continue
+            # written through the parameter itself, an element of it (`parked[0].append`) or a name unpacked from it
+            names = {prm.arg}
+            for st in _ast3.walk(f.node):
+                if isinstance(st, _ast3.Assign) and isinstance(st.value, _ast3.Name) and st.value.id == prm.arg:
+                    for tg in st.targets:
+                        names |= {z.id for z in _ast3.walk(tg) if isinstance(z, _ast3.Name)}
+                if isinstance(st, _ast3.Assign) and isinstance(st.value, _ast3.Subscript) and isinstance(st.value.value, _ast3.Name) and st.value.value.id == prm.arg:
+                    names |= {z.id for tg in st.targets for z in _ast3.walk(tg) if isinstance(z, _ast3.Name)}
+
+            def base(e):
+                while isinstance(e, _ast3.Subscript):
+                    e = e.value
+                return e.id if isinstance(e, _ast3.Name) else None
+            hit = None
+            for y in _ast3.walk(f.node):
+                if isinstance(y, _ast3.Call) and isinstance(y.func, _ast3.Attribute) and y.func.attr in MUTATORS and base(y.func.value) in names:
+                    hit = y
+                elif isinstance(y, _ast3.Subscript) and isinstance(y.ctx, (_ast3.Store, _ast3.Del)) and base(y.value) in names:
+                    hit = y
+                if hit is not None:
+                    break
+            if hit is not None:
+                bad += 1
+                ctx.violation(rule, f'{f.qualname}: default of `{prm.arg}` is a container the function writes to ({norm(hit)[:60]})',
+                              f'{f.unit.rel}:{getattr(hit, "lineno", f.lineno)}',
+                              f'`{prm.arg}={norm(d)[:50]}` is evaluated once, at definition time: every call that relies on the default shares one container, so '
+                              'what one call leaves in it is seen by the next (stale elements, results of another call)',
+                              construct=construct_key(f.qualname, 'mutable default written', prm.arg))
     if not bad:
         ctx.holds(rule, f'{len(seen)} function(s): every local is assigned on every feasible path to each of its reads '
                         f'({n_reads} candidate read(s) examined path-sensitively)', f'{next(iter(scopes)).unit.rel}:1', examined=max(1, n_reads))
@@ -347,3 +405,22 @@ def mapping_with_policy(program, ctor) -> 'Optional[tuple]':
     if over or not any(b.split('.')[-1] in ('dict', 'Dict', 'OrderedDict', 'WeakKeyDictionary', 'WeakKeyDict') for b in bases):
         return cls_.name, bases, over
     return None
+
+
+_pessimistic = {}
+
+
+def pessimistic_model(program, key, exempt):
+    """A raise model in which every call, subscript and suspension may raise anything (apart from what *exempt(cfg, node)*
+    excludes): for rules that ask whether a hand-made cleanup is exception-safe without trusting the raise table."""
+    from ..cfg import RaiseModel, ANY
+    k = (id(program), key)
+    if k not in _pessimistic:
+        class Pessimistic(RaiseModel):
+            def raises(self, cfg, n):
+                cl, susp = super().raises(cfg, n)
+                if n.kind in ('call', 'load_sub', 'store_sub', 'del_sub', 'await', 'for_iter') and not exempt(cfg, n):
+                    cl = set(cl) | {ANY}
+                return cl, susp
+        _pessimistic[k] = Pessimistic(program)
+    return _pessimistic[k]
